@@ -445,6 +445,22 @@ class Pipe:
         self.reader = _PipeReader(self)
         self.writer = _PipeWriter(self)
         self.write_log: list[tuple[str, int]] = []  # (thread name, nbytes) per delivered piece
+        self.gated = False      # when True the reader only sees bytes that were granted
+        self.granted = 0        # total bytes the reader may have consumed so far
+        self.frames: list[int] = []  # sizes of complete writes not yet granted
+        self.force_eof = False
+        self.reader_waiting = False
+
+    def grant_frame(self):
+        """let the reader consume the next complete write (= one frame)"""
+        n = self.frames.pop(0)
+        self.granted += n
+        return n
+
+    def avail(self):
+        if self.gated:
+            return min(len(self.buf), self.granted - self.total_read)
+        return len(self.buf)
 
     def _deliver(self, data):
         if self.cut_at is not None:
@@ -455,6 +471,7 @@ class Pipe:
             data = data[:room] if len(data) > room else data
         self.buf += data
         self.total_written += len(data)
+        self.frames.append(len(data))
 
 
 class _PipeReader:
@@ -463,18 +480,26 @@ class _PipeReader:
 
     def _eof(self):
         p = self.pipe
+        if p.force_eof:
+            return True
+        if p.gated:
+            return False  # under frame gating the end of the stream is decided by the harness alone
         return p.wclosed or (p.cut_at is not None and p.total_written >= p.cut_at)
 
     def read(self, n=-1):
         p = self.pipe
         if p.rclosed:
             raise ValueError("I/O operation on closed file")
-        p.sched.block_until(lambda: len(p.buf) > 0 or self._eof() or p.rclosed, None, "pipe.read")
+        p.reader_waiting = True
+        try:
+            p.sched.block_until(lambda: p.avail() > 0 or self._eof() or p.rclosed, None, "pipe.read")
+        finally:
+            p.reader_waiting = False
         if p.rclosed:
             raise ValueError("I/O operation on closed file")
-        if not p.buf:
+        if p.force_eof or p.avail() <= 0:
             return b""
-        k = len(p.buf) if n is None or n < 0 else min(n, len(p.buf))
+        k = p.avail() if n is None or n < 0 else min(n, p.avail())
         if p.max_chunk and p.rng is not None:
             k = min(k, p.rng.randint(1, p.max_chunk))
         data = bytes(p.buf[:k])
